@@ -33,7 +33,9 @@ deriving Repr, DecidableEq
 inductive Err where
   | ambiguous        -- SchemaError "Ambiguous mapping"
   | depthMismatch    -- SchemaError "must match the schema's nesting level"
-  | internal         -- anything else (ValueError from nested_get …): must never be produced
+  | internal         -- anything else (ValueError from nested_get inside find …): must never be produced
+  | unknownTable     -- ValueError "Unknown table/db/catalog" from `nested_get(parts, self.visible)`
+  | noColumns        -- SchemaError "must have at least one column" (constructor)
 deriving DecidableEq, Repr
 
 inductive FindR where
@@ -110,20 +112,60 @@ def findU (mapping : List (Path × Cols)) (trie : List (List Name)) (table : Lis
 def findUncached (S : St) (table : List Ident) (raise : Bool) : FindR :=
   findU S.mapping S.trie table raise
 
+/-- what of a dialect the schema code can observe when it normalises a name: the strategy, and whether the
+    dialect overrides `normalize_identifier` so that table parts (`meta["is_table"]`) stay case-sensitive
+    under CASE_INSENSITIVE (BigQuery; that override ignores `quoted` and lower-cases every other name). -/
+structure Dia where
+  st : Strategy
+  tableSensitive : Bool
+deriving DecidableEq, Repr, Inhabited
+
+/-- a dialect as the schema sees it: an identity (the `dialect` string / object; it goes into cache keys and
+    selects the type parser) plus what normalisation can observe of it -/
+structure DialectRef where
+  name : String
+  dia : Dia
+deriving DecidableEq, Repr, Inhabited
+
+/-- what the schema code is parametric in: the case maps, the (uninterpreted) `DataType.from_str(text, dialect)`
+    as `ty dialectName text`, and the schema's own dialect (`MappingSchema(dialect=…)`) -/
+structure Env where
+  f : CaseFns
+  ty : String → String → String
+  self : DialectRef
+  /-- `not self.visible` -/
+  visEmpty : Bool
+  /-- `nested_get(path, self.visible)`: `some cols` (the visible column names, or the keys of the sub-dict a
+      too-short path ends in), `none` = a key is missing (ValueError).  `visible` is never updated by `add_table`. -/
+  vis : List Name → Option (List Name)
+
+/-- `{col: self._to_data_type(dtype) …}` (uncached): used by `find(ensure_data_types=True)` -/
+def convCols (E : Env) (ensure : Bool) (cols : Cols) : Cols :=
+  if ensure then cols.map (fun c => (c.1, E.ty E.self.name c.2)) else cols
+
+/-- `normalize_name(identifier, dialect, is_table, normalize=True)` as a function of ALL its inputs -/
+def normIdent (f : CaseFns) (d : Dia) (isTable : Bool) (i : Ident) : Ident :=
+  if d.tableSensitive && d.st == .caseInsensitive then
+    (if isTable then i else { i with name := f.lower i.name })
+  else normalize f d.st i
+
+/-- `_normalize_table`: every part with `is_table=True` -/
+def normTable (f : CaseFns) (d : Dia) (norm : Bool) (t : List Ident) : List Ident :=
+  if norm then t.map (normIdent f d true) else t
+
+/-- `_normalize_name(col)` (`is_table=False`) -/
+def normCol (f : CaseFns) (d : Dia) (norm : Bool) (c : Ident) : Name :=
+  if norm then (normIdent f d false c).name else c.name
+
 /-- `MappingSchema.find`: consult `_find_cache` (a cached `None` counts as a miss) -/
-def find (S : St) (table : List Ident) (raise ensure : Bool) : St × FindR :=
+def find (E : Env) (S : St) (table : List Ident) (raise ensure : Bool) : St × FindR :=
   match lookup S.cache (table, ensure) with
   | some cols => (S, .found cols)
   | none =>
     match findUncached S table raise with
-    | .found cols => ({ S with cache := ((table, ensure), cols) :: S.cache }, .found cols)
+    | .found cols =>
+      ({ S with cache := ((table, ensure), convCols E ensure cols) :: S.cache }, .found (convCols E ensure cols))
     | r => (S, r)
-
-def normTable (st : Strategy) (norm : Bool) (t : List Ident) : List Ident :=
-  if norm then t.map (normalize asciiFns st) else t
-
-def normCol (st : Strategy) (norm : Bool) (c : Ident) : Name :=
-  if norm then (normalize asciiFns st c).name else c.name
 
 def evict (ev : Evict) (cache : List (CKey × Cols)) (t : List Ident) : List (CKey × Cols) :=
   match ev with
@@ -140,10 +182,10 @@ inductive Out where
 deriving DecidableEq, Repr
 
 inductive Op where
-  | addTable (st : Strategy) (norm : Bool) (table : List Ident) (cols : List (Ident × String))
-  | columnNames (st : Strategy) (norm : Bool) (table : List Ident)
-  | columnType (st : Strategy) (norm : Bool) (table : List Ident) (col : Ident)
-  | hasColumn (st : Strategy) (norm : Bool) (table : List Ident) (col : Ident)
+  | addTable (st : DialectRef) (norm : Bool) (table : List Ident) (cols : List (Ident × String))
+  | columnNames (st : DialectRef) (norm : Bool) (table : List Ident) (onlyVisible : Bool)
+  | columnType (st : DialectRef) (norm : Bool) (table : List Ident) (col : Ident)
+  | hasColumn (st : DialectRef) (norm : Bool) (table : List Ident) (col : Ident)
   | find (table : List Ident) (raise ensure : Bool)
 deriving Repr
 
@@ -151,12 +193,40 @@ def Op.isAdd : Op → Bool
   | .addTable .. => true
   | _ => false
 
+/-- an API call after the normalisation of its arguments (`_normalize_table`, `_normalize_name`) -/
+inductive NOp where
+  | addTable (nt : List Ident) (ncols : Cols)
+  | columnNames (nt : List Ident) (onlyVisible : Bool)
+  | columnType (nt : List Ident) (nc : Name) (d : DialectRef)
+  | hasColumn (nt : List Ident) (nc : Name)
+  | find (table : List Ident) (raise ensure : Bool)
+deriving Repr
+
+/-- the normalisation phase of every public method (no caches: this is the specification) -/
+def normOp (E : Env) : Op → NOp
+  | .addTable st norm table cols =>
+    .addTable (normTable E.f st.dia norm table) (ofPairs (cols.map (fun c => (normCol E.f st.dia norm c.1, c.2))))
+  | .columnNames st norm table ov => .columnNames (normTable E.f st.dia norm table) ov
+  | .columnType st norm table col => .columnType (normTable E.f st.dia norm table) (normCol E.f st.dia norm col) st
+  | .hasColumn st norm table col => .hasColumn (normTable E.f st.dia norm table) (normCol E.f st.dia norm col)
+  | .find table raise ensure => .find table raise ensure
+
+/-- the tail of `column_names`: all columns, or those listed in `visible` for the table path AS GIVEN
+    (outermost part first, truncated to the schema depth `d` by the `zip` with `supported_table_args`) -/
+def namesOut (E : Env) (d : Nat) (nt : List Ident) (onlyVisible : Bool) (r : FindR) : Out :=
+  match r with
+  | .found cols =>
+    if !onlyVisible || E.visEmpty then .names (cols.map (·.1)) else
+    match E.vis ((nt.map (·.name)).take d) with
+    | some vs => .names ((cols.map (·.1)).filter (fun c => vs.contains c))
+    | none => .err .unknownTable
+  | .notFound => .names []
+  | .err e => .err e
+
 /-- `column_names` on an already normalized table -/
-def columnNames (S : St) (nt : List Ident) : St × Out :=
-  match find S nt true false with
-  | (S', .found cols) => (S', .names (cols.map (·.1)))
-  | (S', .notFound) => (S', .names [])
-  | (S', .err e) => (S', .err e)
+def columnNames (E : Env) (S : St) (nt : List Ident) (onlyVisible : Bool) : St × Out :=
+  let (S', r) := find E S nt true false
+  (S', namesOut E (depth S) nt onlyVisible r)
 
 /-- `if schema and not normalized_column_mapping: return` -/
 def earlyReturn (r : FindR) (ncols : Cols) : Bool :=
@@ -164,42 +234,49 @@ def earlyReturn (r : FindR) (ncols : Cols) : Bool :=
   | .found c => !c.isEmpty && ncols.isEmpty
   | _ => false
 
-def step (ev : Evict) (S : St) : Op → St × Out
-  | .addTable st norm table cols =>
-    let nt := normTable st norm table
+/-- `get_column_type` after `find`: the column's type text goes through `_to_data_type(text, dialect)` -/
+def typeOut (E : Env) (d : DialectRef) (nc : Name) (r : FindR) : Out :=
+  match r with
+  | .found cols =>
+    .ty (match lookup cols nc with
+         | some ty => E.ty d.name ty
+         | none => "UNKNOWN")
+  | .notFound => .ty "UNKNOWN"
+  | .err e => .err e
+
+def hasOut (nc : Name) (r : FindR) : Out :=
+  match r with
+  | .found cols => .bool ((cols.map (·.1)).contains nc)
+  | .notFound => .bool false
+  | .err e => .err e
+
+/-- the body of the public methods on normalised arguments -/
+def stepN (E : Env) (ev : Evict) (S : St) : NOp → St × Out
+  | .addTable nt ncols =>
     if S.mapping ≠ [] ∧ nt.length ≠ depth S then (S, .err .depthMismatch) else
-    let ncols : Cols := ofPairs (cols.map (fun c => (normCol st norm c.1, c.2)))
-    let (S1, r) := find S nt false false
+    let (S1, r) := find E S nt false false
     if earlyReturn r ncols then (S1, .unit) else
     let path := nt.map (·.name)
     let key := path.reverse
     ({ mapping := dictSet S1.mapping path ncols,
        trie := if S1.trie.contains key then S1.trie else S1.trie ++ [key],
        cache := evict ev S1.cache nt }, .unit)
-  | .columnNames st norm table => columnNames S (normTable st norm table)
-  | .columnType st norm table col =>
-    let nt := normTable st norm table
-    let nc := normCol st norm col
-    match find S nt false false with
-    | (S', .found cols) =>
-      (S', .ty (match lookup cols nc with
-                | some ty => ty
-                | none => "UNKNOWN"))
-    | (S', .notFound) => (S', .ty "UNKNOWN")
-    | (S', .err e) => (S', .err e)
-  | .hasColumn st norm table col =>
+  | .columnNames nt ov => columnNames E S nt ov
+  | .columnType nt nc d =>
+    let (S', r) := find E S nt false false
+    (S', typeOut E d nc r)
+  | .hasColumn nt nc =>
     -- MappingSchema.has_column: normalizes the column, `find(raise_on_missing=False)`, membership
-    let nc := normCol st norm col
-    match find S (normTable st norm table) false false with
-    | (S', .found cols) => (S', .bool ((cols.map (·.1)).contains nc))
-    | (S', .notFound) => (S', .bool false)
-    | (S', .err e) => (S', .err e)
+    let (S', r) := find E S nt false false
+    (S', hasOut nc r)
   | .find table raise ensure =>
-    let (S', r) := find S table raise ensure
+    let (S', r) := find E S table raise ensure
     (S', .findR r)
 
-def run (ev : Evict) (S : St) (ops : List Op) : St :=
-  ops.foldl (fun s op => (step ev s op).1) S
+def step (E : Env) (ev : Evict) (S : St) (op : Op) : St × Out := stepN E ev S (normOp E op)
+
+def run (E : Env) (ev : Evict) (S : St) (ops : List Op) : St :=
+  ops.foldl (fun s op => (step E ev s op).1) S
 
 /-- the schema `MappingSchema(final_mapping)` builds: same mapping, trie rebuilt from it, caches empty -/
 def fresh (S : St) : St :=
